@@ -96,7 +96,11 @@ func program(bm *bondmachine.Bondmachine) string {
 	return b.String()
 }
 
-func prop(c Case) pbt.Outcome {
+func prop(c Case) pbt.Outcome { return propWith(c, c.Live) }
+
+// propWith judges the case; live(part) tells whether the composed machine of a partition is
+// expected to deliver (the rendezvous model of the unchanged composer).
+func propWith(c Case, liveModel func(part [][]int) bool) pbt.Outcome {
 	if err := c.Validate(); err != nil {
 		return pbt.Outcome{Excluded: "malformed"}
 	}
@@ -211,7 +215,7 @@ func prop(c Case) pbt.Outcome {
 				}
 			}
 		}
-		live := c.Live(part)
+		live := liveModel(part)
 		src := c.Source(part)
 		var bm *bondmachine.Bondmachine
 		var aerr error
@@ -256,7 +260,9 @@ func prop(c Case) pbt.Outcome {
 		}
 		switch {
 		case all && !live:
-			fail = pbt.Failf("model-mismatch", "the rendezvous model predicts a deadlock but the machine delivered %v after %d ticks\n%s", got, ticks, ctx())
+			// correct values were delivered: the property holds for this partition whatever the model
+			// of the (unrepaired) composer says
+			lab["delivered_where_model_predicts_deadlock"] = true
 		case !all && live:
 			fail = pbt.Failf("no-delivery", "no value on some external output after %d ticks (delivered %v values %v, expected %v); the rendezvous model says the machine is live\n%s", ticks, ok, got, want, ctx())
 		case !all && !live:
